@@ -205,3 +205,18 @@ B('f_c12_chain_builder_loop_global', ['C12'], 'R12.a',
   (S, _BCS_OLD_HEAD, _LOOP_BODY.replace("'%s__traceback_hide__ = True\\n%sreturn", "'%sglobal calls\\n%scalls = 1\\n%sreturn")
                                .replace("% (_INDENT * (cur + 1), _INDENT * (cur + 1), cur, kwargs)", "% (_INDENT * (cur + 1), _INDENT * (cur + 1), _INDENT * (cur + 1), cur, kwargs)")
       + _BCS_OLD_HEAD))
+
+# ---- C13 / R13.a: one return for both delegates; the delegate's result named before it is returned ----------------------
+_TAIL = ('        except RerouteWSGI as rre:\n            return rre.wsgi_app(environ, start_response)\n        return response(environ, start_response)\n')
+T('f_c13_single_return_two_sources', ['C13', 'C12'],
+  (A, _TAIL, '        except RerouteWSGI as rre:\n            response = rre.wsgi_app\n        return response(environ, start_response)\n'))
+T('f_c13_named_result', ['C13'],
+  (A, _TAIL, '        except RerouteWSGI as rre:\n            app_iter = rre.wsgi_app(environ, start_response)\n            return app_iter\n'
+             '        body_iter = response(environ, start_response)\n        return body_iter\n'))
+B('f_c13_single_return_foreign_source', ['C13'], 'R13.a',
+  (A, _TAIL, '        except RerouteWSGI as rre:\n            response = self.response_type(repr(rre))\n        return response(environ, start_response)\n'))
+B('f_c13_named_result_consumed', ['C13'], 'R13.a',
+  (A, _TAIL, '        except RerouteWSGI as rre:\n            return rre.wsgi_app(environ, start_response)\n'
+             '        body_iter = response(environ, start_response)\n        return list(body_iter)\n'))
+B('f_c13_wrap_loop_sorted', ['C13'], 'R13.b',
+  (A, '        for mw in reversed(all_mws):', '        for mw in all_mws[::-2]:'))
